@@ -679,6 +679,31 @@ def keyword_chains(P, R, rule='C16.TAB.6'):
     R.floor(rule, 1, 'keyword chains in the configuration unit')
 
 
+def reinterpretation_resets(P, R, rule='C16.MPT.3'):
+    """What a string node remembers (the `parsed` union) belongs to ONE interpretation of its text.  Wherever a node's
+    subtype is assigned, the union is cleared on that path before the text is parsed again: the failure arm of the
+    typed conversion leaves the union as it is ("the previous value stays in force"), so without the reset an
+    unparsable number read through the new subtype is whatever the old interpretation left there - for a node the
+    parser made, the bits of the pointer to its text."""
+    unit = P.need_fn('conf_read').unit
+    n = 0
+    for f in P.unit_fns(unit):
+        for s in f.stores():
+            l = s.ev.get('lhs') or {}
+            if not (s.ev['k'] == 'store' and l.get('k') == 'mem' and l.get('field') == 'subtype' and l.get('rec') == 'conf_node_string'):
+                continue
+            base = sx(l.get('base'))
+            ok = False
+            for t in f.calls('memset'):
+                a = t.ev['args']
+                if a and any(isinstance(x, dict) and x.get('k') == 'mem' and x.get('field') == 'parsed' and sx(x.get('base')) == base for x in walk(a[0])) and const_of(a[1]) == 0:
+                    if t.bid == s.bid or f.dominates(t.bid, s.bid):
+                        ok = True
+            n += 1
+            R.ob(rule, ok, s, 'in %s the remembered value of %s is cleared where its subtype is assigned' % (f.name, base), key='subtype-reset:%s' % f.name)
+    R.floor(rule, 1, 'assignments of a string node\'s subtype')
+
+
 def run(P, R, tier):
     reader_contract(P, R)
     token_alphabet(P, R)
@@ -692,6 +717,7 @@ def run(P, R, tier):
     unknown_chars(P, R)
     parsed_on_success(P, R)
     typed_text(P, R)
+    reinterpretation_resets(P, R)
     duplicates(P, R)
     ws = P.need_fn('conf_parse_whitespace')
     scanner_typestate(ws, lambda e: is_field(e, 'curr', 'conf_parse'), 'C16.BND.1', R, 'whitespace/comment skipper')
